@@ -279,6 +279,11 @@ V("C01/gen/dispatch", ["C01", "C06", "C07"], "movegen.vspec",
   "for every sink and every board: gen_all / gen_capture / gen_simple / gen_simple_no_promote / gen_simple_promote run exactly the move classes the property assigns to them (all; captures incl. en passant and capture-promotions; non-captures incl. castling; the same without / only straight promotions), each class once, and on a refused push stop inside that class; gen_for_has_legal_moves runs every class except castling",
   assumes=GEN_ALL + ["C01/gen/allowed-mask"])
 
+V("C17/walker/verus", ["C17", "C04"], "walker.vspec",
+  ["Walker::len", "Walker::is_empty", "Walker::pos", "Walker::set_board_pos", "Walker::next", "Walker::prev", "Walker::start", "Walker::end"],
+  "for stacks of ANY length and any interleaving of next / prev / start / end: the walker's private board is always position number board_pos of the one sequence of positions the stack records (each entry applied to / undone from exactly the position it was recorded for - the precondition of unmake holds at every call); next returns (position before move pos, move pos), prev returns (position before move pos-1, move pos-1); None exactly at the ends; the chain is only borrowed shared (type system)",
+  assumes=STEP)
+
 
 def by_id():
     return {o["id"]: o for o in OBS}
